@@ -11,6 +11,7 @@ mod eqhash;
 mod attrprops;
 mod ropeprop;
 mod safety;
+mod jsonprop;
 mod treeprops;
 
 use runner::*;
@@ -101,6 +102,8 @@ fn main() {
     if !violated.is_empty() { j["oracle_failures"] = json!(j["oracle_failures"].as_u64().unwrap_or(0) + violated.len() as u64); j["unknown_oracle_failures"] = json!(j["unknown_oracle_failures"].as_u64().unwrap_or(0) + violated.len() as u64); }
     j["extra"] = json!({ "unsafe_sites_reached": reached, "unsafe_sites_violated": violated });
     j
+  } else if id == "C15" {
+    simple::run_simple("C15", &jsonprop::gen, &jsonprop::corpus(), &cfg)
   } else if id == "C16" {
     let mut r = simple::run_simple("C16", &ropeprop::gen, &ropeprop::corpus(), &cfg);
     let mut d = core::Driver::spawn(&cfg.driver);
